@@ -55,10 +55,9 @@ def prepare(n):
     os.makedirs(ROOT, exist_ok=True)
     for i in range(n):
         w = os.path.join(ROOT, str(i))
-        if os.path.exists(w):
-            continue
-        os.makedirs(w)
-        sh(["git", "-C", REPO, "worktree", "add", "-f", "--detach", os.path.join(w, "repo"), "HEAD"])
+        if not os.path.exists(w):
+            os.makedirs(w)
+            sh(["git", "-C", REPO, "worktree", "add", "-f", "--detach", os.path.join(w, "repo"), "HEAD"])
         sh(["rsync", "-a", "--exclude", ".git", "--exclude", "replays", "--exclude", "mutants", "--exclude", "seeded", VERIF + "/", os.path.join(w, "verif") + "/"])
     print("workers ready:", n)
 
@@ -77,6 +76,9 @@ def worker(i, todo, lock):
         else:
             open(path, "wb").write(data[:s["off"]] + s["new"].encode() + data[s["off"] + s["len"]:])
             rc, out = sh("go build ./... ", cwd=repo, env=GOENV)
+            if rc != 0 and re.search(r"resource temporarily unavailable|cannot allocate|pthread_create", out):
+                time.sleep(60)
+                rc, out = sh("go build ./... ", cwd=repo, env=GOENV)
             if rc != 0:
                 res = {"status": "nocompile"}
             else:
